@@ -338,11 +338,17 @@ Proof. vm_compute. split; reflexivity. Qed.
 
 (* ---------------------------------------------------------------------- 6. name and URL *)
 
+(* the URL test of the code is the documented URL shape `scheme://host[/...]` (scheme alphabetic,
+   possibly empty; host not empty, no white space).  [alpha] is char::is_alphabetic, an oracle;
+   the one fact needed of it: a colon is not alphabetic. *)
+Theorem C13_name_url_full :
+  forall alpha s, alpha 58 = false -> (is_url alpha s = true <-> Doc.valid_url alpha s).
+Proof. intros. apply is_url_iff. assumption. Qed.
+Print Assumptions C13_name_url_full.
+
 (* `Name <Url>` and `<Url>` (empty name): name and URL when the bracketed text is a valid
-   URL; an invalid URL in brackets makes the whole string a plain one (next theorem).
-   [_partial]: validity is the model's [is_url]; its agreement with the documented URL shape
-   [Doc.valid_url] (the full statement below) is not proved, only monitored at run time. *)
-Theorem C13_name_url_bracket_partial :
+   URL; an invalid URL in brackets makes the whole string a plain one (next theorem) *)
+Theorem C13_name_url_bracket :
   forall alpha dbg name url pad,
     ~ In 60 name -> existsb_n is_angle url = false -> forallb ascii_ws pad = true ->
     nu_parse alpha (cfg_new dbg) (Doc.print_bracket name url pad)
@@ -351,19 +357,36 @@ Theorem C13_name_url_bracket_partial :
            then nu_new None (Some (Doc.print_bracket name url pad))
            else nu_new (Some (Doc.print_bracket name url pad)) None.
 Proof. intros. apply (nu_parse_bracket alpha (cfg_new dbg)); (reflexivity || assumption). Qed.
-Print Assumptions C13_name_url_bracket_partial.
+Print Assumptions C13_name_url_bracket.
 
 (* `Url` and `Name`: a string not ending in `>` is the URL if it is one, else the name *)
-Theorem C13_name_url_plain_partial :
+Theorem C13_name_url_plain :
   forall alpha dbg s,
     last_is (trim_ascii_end s) 62 = false ->
     nu_parse alpha (cfg_new dbg) s
     = if is_url alpha s then nu_new None (Some s) else nu_new (Some s) None.
 Proof. intros. apply nu_parse_plain. assumption. Qed.
-Print Assumptions C13_name_url_plain_partial.
+Print Assumptions C13_name_url_plain.
 
-Definition C13_name_url_full : Prop :=
-  forall alpha s, is_url alpha s = true <-> Doc.valid_url alpha s.
+(* for EVERY string: NameAndUrl::parse returns (name, url) exactly when that is the documented
+   reading [Doc.name_url]: `Name <Url>` / `<Url>` with a valid URL -> trimmed name and URL; any
+   other string -> the URL if it is a valid one, else the name, as a whole (so an invalid URL in
+   brackets makes everything the name) *)
+Theorem C13_name_url_documented :
+  forall alpha dbg s n u,
+    alpha 58 = false ->
+    (nu_parse alpha (cfg_new dbg) s = (n, u) <-> Doc.name_url alpha s n u).
+Proof. intros. apply nu_parse_iff; [reflexivity|assumption]. Qed.
+Print Assumptions C13_name_url_documented.
+
+Example name_url_documented_ex :
+  Doc.name_url is_ascii_alpha (Doc.lit "Rachel <https://rachel.url> "%string)
+    (Some (Doc.lit "Rachel"%string)) (Some (Doc.lit "https://rachel.url"%string))
+  /\ Doc.name_url is_ascii_alpha (Doc.lit "Rachel <foo>"%string) (Some (Doc.lit "Rachel <foo>"%string)) None
+  /\ Doc.name_url is_ascii_alpha (Doc.lit "://x"%string) None (Some (Doc.lit "://x"%string)).
+Proof.
+  repeat split; apply (nu_parse_iff is_ascii_alpha (cfg_new true)); (reflexivity || (vm_compute; reflexivity)).
+Qed.
 
 Example name_url_ex :
   nu_parse is_ascii_alpha (cfg_new true) (Doc.lit "Rachel <https://rachel.url> "%string)
@@ -377,4 +400,150 @@ Example name_url_ex :
   /\ nu_parse is_ascii_alpha (cfg_new true) (Doc.lit "Rachel"%string) = (Some (Doc.lit "Rachel"%string), None)
   /\ Doc.print_bracket (Doc.lit "Rachel "%string) (Doc.lit "https://rachel.url"%string) [32]
      = Doc.lit "Rachel <https://rachel.url> "%string.
+Proof. vm_compute. repeat split. Qed.
+
+(* ---------------------------------------------------------------------- accepted => documented,
+   every string *)
+
+(* the unit reader: if it answers n, the white-space separated words of the string group into
+   number-unit pairs ([Doc.ws_words], [Doc.grouped]), the float reader read each number as a
+   finite v, the converter (or the hard-coded table) turned each (v, unit) into finite minutes
+   m, and n is the rounded sum, non-negative and within u32 *)
+Theorem C13_no_wrong_number_units :
+  forall pf dbg cv s n,
+    parse_with_units pf (cfg_new dbg) cv s = Some n -> units_reading pf cv s n /\ n < two32.
+Proof.
+  intros pf dbg cv s n H. pose proof (parse_with_units_inv pf (cfg_new dbg) cv s n eq_refl H) as UR.
+  split; [exact UR|]. destruct UR as (ws & items & q & _ & _ & _ & _ & _ & L & ->).
+  unfold u32_max, two32 in *. lia.
+Qed.
+Print Assumptions C13_no_wrong_number_units.
+
+(* what "turned (v, unit) into m minutes" means: with the empty converter the unit is in the
+   documented table and m = v * factor *)
+Theorem C13_unit_meaning_hard :
+  forall v u m, to_minutes [] (FFin v) u = Some (FFin m) ->
+    exists r, Doc.per_default u = Some r /\ (m == v * r)%Q.
+Proof. exact to_minutes_hard_inv. Qed.
+Print Assumptions C13_unit_meaning_hard.
+
+(* with a converter: its minute unit and the unit of the key are Time units, and m is v itself
+   (same unit) or the affine conversion by their ratios *)
+Theorem C13_unit_meaning_converter :
+  forall cv v u m, cv <> [] -> to_minutes cv (FFin v) u = Some (FFin m) ->
+    exists mi mu ui uu,
+      minute_unit cv = Some (mi, mu) /\ u_time mu = true /\ find_unit cv u = Some (ui, uu) /\ u_time uu = true
+      /\ m = if ui =? mi then v else ((v + u_diff uu) * u_ratio uu / u_ratio mu - u_diff mu)%Q.
+Proof. exact to_minutes_dynamic_inv. Qed.
+Print Assumptions C13_unit_meaning_converter.
+
+(* the clause "never a wrapped or otherwise wrong number" as one theorem: for ALL strings, every
+   float reader, converter and build mode, a duration that is read is the number of one of the
+   three documented readings - the compact form (exactly 60h+m), number-unit pairs (rounded sum),
+   or a plain number (round v of the number read, 0 <= v) - and fits a u32 *)
+Theorem C13_no_wrong_number :
+  forall pf dbg cv s n,
+    parse_time pf (cfg_new dbg) cv s = Done (Some n) ->
+    (compact_reading s n \/ units_reading pf cv s n \/ float_reading pf s n) /\ n < two32.
+Proof. intros pf dbg cv s n. apply parse_time_inv; reflexivity. Qed.
+Print Assumptions C13_no_wrong_number.
+
+(* the float fallback alone: what is returned is round v of the finite, non-negative number read *)
+Theorem C13_no_wrong_number_float :
+  forall dbg v n, finish_cast (cfg_new dbg) v = Some n ->
+    exists q, v = FFin q /\ (0 <= q)%Q /\ (Doc.round q <= Z.of_N u32_max)%Z /\ n = Z.to_N (Doc.round q).
+Proof. intros dbg v n H. apply cast_checked_inv. exact H. Qed.
+Print Assumptions C13_no_wrong_number_float.
+
+Example no_wrong_number_ex2 :
+  parse_time parse_f64 (cfg_new true) [] (Doc.lit "1.5 h 20min"%string) = Done (Some 110)
+  /\ parse_time parse_f64 (cfg_new true) [] (Doc.lit "1e3"%string) = Done (Some 1000)
+  /\ parse_time parse_f64 (cfg_new true) [] (Doc.lit "-5"%string) = Done None
+  /\ parse_time parse_f64 (cfg_new false) [] (Doc.lit "99999999999 h"%string) = Done None.
+Proof. vm_compute. repeat split. Qed.
+
+(* ---------------------------------------------------------------------- servings, every entry *)
+
+(* a `|`-string of arbitrary entries: l is returned exactly when every entry has a leading number
+   ([Doc.leading_padded]: blanks, digits, then nothing or text not continuing the word) and the
+   numbers are distinct *)
+Theorem C13_servings_string_iff :
+  forall pieces l,
+    pieces <> [] -> Doc.no_sep 124 pieces ->
+    (value_as_servings (YStr (Doc.join 124 pieces)) = Some l
+     <-> Forall2 Doc.leading_padded pieces l /\ NoDup l).
+Proof.
+  intros pieces l NE NS. rewrite servings_string_eq by assumption.
+  apply serv_some. intros a n. apply extract_trim_iff.
+Qed.
+Print Assumptions C13_servings_string_iff.
+
+(* ... and nothing is returned exactly when some entry has no leading number or two are equal *)
+Theorem C13_servings_string_none_iff :
+  forall pieces,
+    pieces <> [] -> Doc.no_sep 124 pieces ->
+    (value_as_servings (YStr (Doc.join 124 pieces)) = None
+     <-> (exists e, In e pieces /\ forall n, ~ Doc.leading_padded e n)
+         \/ (exists l, Forall2 Doc.leading_padded pieces l /\ ~ NoDup l)).
+Proof.
+  intros pieces NE NS. rewrite servings_string_eq by assumption.
+  apply serv_none. intros a n. apply extract_trim_iff.
+Qed.
+Print Assumptions C13_servings_string_none_iff.
+
+(* a list of arbitrary entries: an entry gives n when it is the u32 number n, or a string with
+   the leading number n ([entry_reads]; not trimmed: the code does not trim list entries) *)
+Theorem C13_servings_list_iff :
+  forall seq l,
+    value_as_servings (YSeq seq) = Some l <-> Forall2 entry_reads seq l /\ NoDup l.
+Proof. intros seq l. rewrite servings_list_eq. apply serv_some. exact serving_entry_iff. Qed.
+Print Assumptions C13_servings_list_iff.
+
+Theorem C13_servings_list_none_iff :
+  forall seq,
+    value_as_servings (YSeq seq) = None
+    <-> (exists e, In e seq /\ forall n, ~ entry_reads e n)
+        \/ (exists l, Forall2 entry_reads seq l /\ ~ NoDup l).
+Proof. intros seq. rewrite servings_list_eq. apply serv_none. exact serving_entry_iff. Qed.
+Print Assumptions C13_servings_list_none_iff.
+
+Example servings_iff_ex :
+  value_as_servings (YSeq [YStr (Doc.lit "5 cups"%string); YNum (Some 6) (Doc.lit "6"%string)]) = Some [5; 6]
+  /\ value_as_servings (YSeq [YStr (Doc.lit " 5"%string)]) = None
+  /\ value_as_servings (YStr (Doc.lit "12 servings|24 servings"%string)) = Some [12; 24].
+Proof. vm_compute. repeat split. Qed.
+
+(* the model's own float reader (the one the correspondence runs against str::parse::<f64>) reads
+   the number texts of the unit reader - digits and points, [Doc.grouped] - as their decimal
+   value exactly, or not as a finite number at all: `007`, `1.50`, `.5`, `5.` *)
+Theorem C13_model_reader_decimal :
+  forall s v, forallb Doc.num_char s = true -> parse_f64 s = Some (FFin v) -> Doc.decimal s v.
+Proof. exact parse_f64_decimal. Qed.
+Print Assumptions C13_model_reader_decimal.
+
+Example reader_decimal_ex :
+  parse_f64 (Doc.lit "007.50"%string) = Some (FFin (750 # 100)) /\ parse_f64 (Doc.lit "1.2.3"%string) = None.
+Proof. vm_compute. split; reflexivity. Qed.
+
+(* ---------------------------------------------------------------------- the real converters *)
+From CL Require Import Proofs.StdMetaGen.
+
+(* Converter::default() and the live build of units.toml + spanish.toml, as dumped into
+   Gen/UnitsLive.v on every run of C16: the minute unit is a Time unit of ratio 60, and every key
+   of every Time unit (`hora`, `minutos`, `secs`, ...) means ratio/60 minutes to the duration
+   reader - the hypothesis [unit_means] of C13_units_documented, discharged on the real tables *)
+Theorem C13_time_units_equiv :
+  forall cv, In cv live_convs ->
+    exists mi mu, minute_unit cv = Some (mi, mu) /\ u_time mu = true /\ (u_ratio mu == 60 # 1)%Q
+      /\ forall u k, In u cv -> u_time u = true -> In k (u_keys u) ->
+                     unit_means cv k (u_ratio u / u_ratio mu).
+Proof. exact live_time_units. Qed.
+Print Assumptions C13_time_units_equiv.
+
+Example live_units_ex :
+  parse_time parse_f64 (cfg_new true) (conv_of_dump UnitsLive.live_spanish) (Doc.lit "1 hora 30 minutos"%string)
+  = Done (Some 90)
+  /\ parse_time parse_f64 (cfg_new true) (conv_of_dump UnitsLive.live_default) (Doc.lit "90 secs 1d"%string)
+     = Done (Some 1442)
+  /\ conv_ok (conv_of_dump UnitsLive.live_default) = true /\ index_agrees UnitsLive.live_spanish = true.
 Proof. vm_compute. repeat split. Qed.
